@@ -111,7 +111,8 @@ var checks = []Check{
 		Assumptions: append([]string{"mini Redis Cluster redirection rules written from redis-server 5.0 getNodeByQuery; ownership changes are atomic cluster-wide (no gossip lag); replicas share their master's data", "errors are tolerated after a failover whose old master is down until the next periodic refresh round completed (the proxy cannot know earlier; deliberately weaker than the statement)"}, engineAssumptions...),
 		Jobs: []Job{
 			{Pkg: "proc/redis", Scenarios: []string{"C04/histories"}, Shards: 16, QuickS: 90, ThoroughS: 900},
-			{Pkg: "proc/redis", Scenarios: []string{"C04/asking"}, Shards: 16, QuickS: 90, ThoroughS: 900},
+			{Pkg: "proc/redis", Scenarios: []string{"C04/asking"}, Shards: 16, QuickS: 90, ThoroughS: 600},
+			{Pkg: "proc/redis", Scenarios: []string{"C04/pipelined-redirect"}, Shards: 16, QuickS: 60, ThoroughS: 600},
 		},
 	},
 	{
@@ -119,7 +120,10 @@ var checks = []Check{
 		LevelText: "every history up to depth 5/6 (plus selected deeper convergence histories) over connection resets, node down/up, slot-group moves (including the last group of a master) and refresh rounds on the real proxy stack; requests issued at quiescence and compared with a single-server reference; redirections must stop within two refresh rounds after the first redirection",
 		Technique: "exhaustive enumeration of fault/topology histories on the real proxy stack under a controlled scheduler with virtual time",
 		Assumptions: append([]string{"mini Redis Cluster (ownership changes are atomic cluster-wide; a restarted node keeps its data)", "default schedule per operation; the random seed-host choice rotates fairly"}, engineAssumptions...),
-		Jobs: []Job{{Pkg: "proc/redis", Scenarios: []string{"C07/histories"}, Shards: 16, QuickS: 90, ThoroughS: 900}},
+		Jobs: []Job{
+			{Pkg: "proc/redis", Scenarios: []string{"C07/histories"}, Shards: 16, QuickS: 90, ThoroughS: 900},
+			{Pkg: "proc/redis", Scenarios: []string{"C07/concurrent-loss"}, Shards: 16, QuickS: 60, ThoroughS: 600},
+		},
 	},
 	{
 		ID: "C01", Title: "replies come back in request order, exactly one per request", Level: "model_checking",
